@@ -2,6 +2,7 @@ package options
 
 import (
 	"flag"
+	"time"
 
 	"github.com/urfave/cli/v2"
 )
@@ -59,10 +60,15 @@ func Harness_settings_precedence() {
 	flagSet := map[string]bool{}
 	cfgSet := map[string]bool{}
 	iniGlobal, iniResolver := "", ""
+	flagDepth := 7
 	for _, s := range []string{"database", "logfile", "date-format", "maxdepth"} {
 		if verifChoose("flag-"+s, 2) == 1 {
 			flagSet[s] = true
 			v := map[string]string{"database": "flag-db.yaml", "logfile": "flag-log.yaml", "date-format": "02.01.2006", "maxdepth": "7"}[s]
+			if s == "maxdepth" && verifChoose("flag-maxdepth-zero", 2) == 1 {
+				v = "0"
+				flagDepth = 0
+			}
 			globalArgs = append(globalArgs, "--"+s+"="+v)
 		}
 		if cfgMode == 1 || cfgMode == 2 {
@@ -91,6 +97,19 @@ func Harness_settings_precedence() {
 	case 3:
 		globalArgs = append(globalArgs, "--config="+verifMissingFile("explicit-config"))
 	}
+	// --today written in the date format that is in effect (flag > config > default)
+	effLayout := "2006/01/02"
+	if flagSet["date-format"] {
+		effLayout = "02.01.2006"
+	} else if cfgSet["date-format"] {
+		effLayout = "2006-01-02"
+	}
+	withToday := verifChoose("today", 2) == 1
+	today := ""
+	if withToday {
+		today = verifDay("today", effLayout, 400)
+		globalArgs = append(globalArgs, "--today="+today)
+	}
 	c, err := HCtx(defaultCfg, globalArgs, nil)
 	verifAssume(err == nil)
 	o := New()
@@ -118,11 +137,15 @@ func Harness_settings_precedence() {
 	verifAssert("date-format:flag>config>default", o.GlobalConfig.DateFormat == want("date-format", "02.01.2006", "2006-01-02", "2006/01/02"))
 	wantDepth := 10
 	if flagSet["maxdepth"] {
-		wantDepth = 7
+		wantDepth = flagDepth
 	} else if cfgSet["maxdepth"] {
 		wantDepth = 5
 	}
 	verifAssert("maxdepth:flag>config>default", o.ResolverConfig.MaxDepth == wantDepth)
+	if withToday {
+		tt, perr := time.Parse(effLayout, today)
+		verifAssert("today:read-with-effective-date-format", perr == nil && o.GlobalConfig.Now.Equal(tt))
+	}
 	// the layout used for printing dates is the layout used for reading them (C14)
 	verifAssert("print-layout=parse-layout", o.ReporterConfig.DateFormat == o.GlobalConfig.DateFormat)
 }
